@@ -295,6 +295,25 @@ fn run_case(input: &str) -> String {
             Err(allsorts::error::ShapingError::Parse(e)) => format!("err:{}", avh::perr(&e)),
             Err(e) => format!("err:{:?}", e),
         }
+    } else if run[0].int() == 2 {
+        // Features::Mask; the FRAC split of gsub_apply_default is not modelled: the generator never sets that bit
+        let mask = gsub::FeatureMask::from_bits_truncate(run[3].int() as u64);
+        let r = gsub::apply(
+            0,
+            &cache,
+            gdef.as_ref(),
+            run[1].int() as u32,
+            run[2].opt().map(|l| l.int() as u32),
+            &Features::Mask(mask),
+            None,
+            run[4].int() as u16,
+            &mut glyphs,
+        );
+        match r {
+            Ok(()) => format!("ok:{}", fmt_glyphs(&glyphs)),
+            Err(allsorts::error::ShapingError::Parse(e)) => format!("err:{}", avh::perr(&e)),
+            Err(e) => format!("err:{:?}", e),
+        }
     } else {
         let r = gsub::gsub_apply_lookup(
             &cache,
@@ -343,7 +362,57 @@ const DFLT: i64 = tag(b"DFLT");
 const LATN: i64 = tag(b"latn");
 const ARAB: i64 = tag(b"arab");
 const ENG: i64 = tag(b"ENG ");
-const FEATURE_TAGS: &[i64] = &[LIGA, CCMP, CALT, RVRN, FINA, VERT, VRT2, LIGA, CCMP];
+const CLIG: i64 = tag(b"clig");
+const RLIG: i64 = tag(b"rlig");
+const LOCL: i64 = tag(b"locl");
+const DLIG: i64 = tag(b"dlig");
+const SMCP: i64 = tag(b"smcp");
+const CYRL: i64 = tag(b"cyrl");
+const FEATURE_TAGS: &[i64] = &[LIGA, CCMP, CALT, RVRN, FINA, VERT, VRT2, LIGA, CCMP, CLIG, RLIG, LOCL, DLIG, SMCP, CLIG, LIGA];
+/// bit 16 of FeatureMask (FRAC): gsub_apply_default then takes the fraction-splitting path, which is not modelled
+const FRAC_BIT: u64 = 1 << 16;
+
+/// the lookup-flag skip rule of the OpenType specification, evaluated on the case trees (generator utility:
+/// used to place glyphs the lookup skips INSIDE rule instances; independent of the code under test)
+fn skips(flag: i64, mfs: Option<i64>, gdef: &T, g: i64) -> bool {
+    let d = match gdef.opt() {
+        Some(d) => d.list(),
+        None => return false,
+    };
+    let class = d[0].opt().map(|cd| class_of(cd, g)).unwrap_or(0);
+    if flag & 2 != 0 && class == 1 {
+        return true;
+    }
+    if flag & 4 != 0 && class == 2 {
+        return true;
+    }
+    if class != 3 {
+        return false;
+    }
+    if flag & 8 != 0 {
+        return true;
+    }
+    let mat = (flag >> 8) & 0xFF;
+    if mat != 0 {
+        let attach = d[1].opt().map(|cd| class_of(cd, g)).unwrap_or(0);
+        if attach != mat {
+            return true;
+        }
+    }
+    if flag & 16 != 0 {
+        if let Some(i) = mfs {
+            let in_set = d[2]
+                .opt()
+                .and_then(|sets| sets.list().get(i as usize))
+                .map(|c| cov_member_list(c).contains(&g))
+                .unwrap_or(false);
+            if !in_set {
+                return true;
+            }
+        }
+    }
+    false
+}
 
 struct Gen<'a> {
     rng: &'a mut Rng,
@@ -352,6 +421,9 @@ struct Gen<'a> {
     cur: i64,
     /// lookup 0 reacts to (nearly) every glyph, so nested records that point at it change something
     catch_all: bool,
+    gdef: T,
+    cur_flag: i64,
+    cur_mfs: Option<i64>,
 }
 
 impl<'a> Gen<'a> {
@@ -634,9 +706,88 @@ impl<'a> Gen<'a> {
             6..=8 => 2,
             _ => 3,
         };
-        let subs: Vec<T> = (0..nsub).map(|_| self.subtable(ty)).collect();
-        let ext = if self.rng.chance(1, 4) && nsub > 0 { 1 } else { 0 };
+        self.cur_flag = flag;
+        self.cur_mfs = mfs;
+        let mut subs: Vec<T> = (0..nsub).map(|_| self.subtable(ty)).collect();
+        if (ty == 5 || ty == 6) && self.rng.chance(2, 5) {
+            // rules that overlap on shifted positions: the second one starts at a later input glyph of the first
+            let mut ov = self.overlap_subtables(ty);
+            if self.rng.chance(1, 2) {
+                ov.extend(subs);
+                subs = ov;
+            } else {
+                subs.extend(ov);
+            }
+        }
+        let ext = if self.rng.chance(1, 4) && !subs.is_empty() { 1 } else { 0 };
         T::L(vec![T::I(ext), T::I(flag), match mfs { Some(m) => T::some(T::I(m)), None => T::none() }, T::I(ty), T::L(subs)])
+    }
+
+    /// Two (or three) contextual subtables over glyphs the current lookup does NOT skip: subtable 0 matches a
+    /// sequence a b [c], a later subtable matches starting at b (and at c).  The rule instances pushed to `hits`
+    /// carry glyphs the lookup skips between the input glyphs, so that "where does the loop resume after a
+    /// match" is observable: resuming inside the consumed sequence lets the later subtable fire on b.
+    fn overlap_subtables(&mut self, ty: i64) -> Vec<T> {
+        let (flag, mfs) = (self.cur_flag, self.cur_mfs);
+        let gdef = self.gdef.clone();
+        let unskipped: Vec<i64> = (1..NG).filter(|g| !skips(flag, mfs, &gdef, *g)).collect();
+        let skipped: Vec<i64> = (1..NG).filter(|g| skips(flag, mfs, &gdef, *g)).collect();
+        if unskipped.len() < 2 {
+            return vec![];
+        }
+        let pick = |g: &mut Gen, v: &Vec<i64>| v[g.rng.below(v.len() as u64) as usize];
+        let a = pick(self, &unskipped);
+        let b = pick(self, &unskipped);
+        let c = pick(self, &unskipped);
+        let three = self.rng.chance(1, 3);
+        let seq: Vec<i64> = if three { vec![a, b, c] } else { vec![a, b] };
+        // rule instances with skipped glyphs inside
+        for _ in 0..3 {
+            let mut hit = vec![];
+            for (k, x) in seq.iter().enumerate() {
+                if k > 0 && !skipped.is_empty() && self.rng.chance(2, 3) {
+                    hit.push(pick(self, &skipped));
+                    if self.rng.chance(1, 4) {
+                        hit.push(pick(self, &skipped));
+                    }
+                }
+                hit.push(*x);
+            }
+            if self.rng.chance(1, 2) {
+                hit.push(pick(self, &unskipped));
+            }
+            self.hits.push((self.cur, hit));
+        }
+        let rec_first = |g: &mut Gen| T::L(vec![T::of_ints(&[0, g.lookup_index()])]);
+        let cov1 = |x: i64| T::L(vec![T::I(1), T::I(x)]);
+        let mut out = vec![];
+        let starts: Vec<(i64, Vec<i64>)> = {
+            let mut v = vec![(a, seq[1..].to_vec()), (b, if three && self.rng.chance(1, 2) { vec![c] } else { vec![] })];
+            if three {
+                v.push((c, vec![]));
+            }
+            v
+        };
+        for (first, input) in starts {
+            let recs = rec_first(self);
+            let sub = if ty == 5 {
+                if self.rng.chance(1, 2) {
+                    T::L(vec![T::I(1), cov1(first), T::L(vec![T::some(T::L(vec![T::L(vec![T::of_ints(&input), recs])]))])])
+                } else {
+                    let mut covs = vec![cov1(first)];
+                    covs.extend(input.iter().map(|x| cov1(*x)));
+                    T::L(vec![T::I(3), T::L(covs), recs])
+                }
+            } else if self.rng.chance(1, 2) {
+                T::L(vec![T::I(1), cov1(first), T::L(vec![T::some(T::L(vec![T::L(vec![T::of_ints(&[]), T::of_ints(&input), T::of_ints(&[]), recs])]))])])
+            } else {
+                let mut covs = vec![cov1(first)];
+                covs.extend(input.iter().map(|x| cov1(*x)));
+                T::L(vec![T::I(3), T::L(vec![]), T::L(covs), T::L(vec![]), recs])
+            };
+            out.push(sub);
+        }
+        out
     }
 }
 
@@ -664,7 +815,7 @@ fn gen(rng: &mut Rng) -> String {
     let gdef = gen_gdef(rng);
     let nlookups = rng.range(1, 5);
     let catch_all = rng.chance(2, 3);
-    let mut g = Gen { rng, nlookups, hits: vec![], cur: 0, catch_all };
+    let mut g = Gen { rng, nlookups, hits: vec![], cur: 0, catch_all, gdef: gdef.clone(), cur_flag: 0, cur_mfs: None };
     let mut lookups: Vec<T> = vec![];
     for k in 0..nlookups {
         g.cur = k;
@@ -696,13 +847,18 @@ fn gen(rng: &mut Rng) -> String {
     let rng = g.rng;
 
     // features, scripts
-    let nfeat = rng.range(1, 4);
+    let nfeat = rng.range(1, 5);
+    // several features often share a lookup (the non-idempotent lookup 0 in particular)
+    let shared = rng.range(0, nlookups - 1);
     let features: Vec<T> = (0..nfeat)
         .map(|_| {
             let n = rng.range(0, 3);
-            let li: Vec<i64> = (0..n)
+            let mut li: Vec<i64> = (0..n)
                 .map(|_| if rng.chance(1, 50) { nlookups + rng.range(0, 1) } else { rng.range(0, nlookups - 1) })
                 .collect();
+            if rng.chance(1, 2) {
+                li.push(if rng.chance(1, 2) { 0 } else { shared });
+            }
             T::L(vec![T::I(*rng.pick(FEATURE_TAGS)), T::of_ints(&li)])
         })
         .collect();
@@ -725,16 +881,25 @@ fn gen(rng: &mut Rng) -> String {
         _ => T::some(T::L(vec![T::L(vec![T::I(DFLT), script(rng)]), T::L(vec![T::I(LATN), script(rng)])])),
     };
     let feature_list = if rng.chance(1, 30) { T::none() } else { T::some(T::L(features)) };
-    let lookup_list = if rng.chance(1, 40) { T::none() } else { T::some(T::L(lookups)) };
+    let lookup_list = if rng.chance(1, 40) { T::none() } else { T::some(T::L(lookups.clone())) };
     let layout = T::L(vec![scripts, feature_list, lookup_list]);
 
-    let run_is_apply = rng.chance(3, 5);
+    let run_kind = rng.below(5); // 0,1: gsub::apply Custom; 2: gsub::apply Mask; 3,4: gsub_apply_lookup
+    let run_is_apply = run_kind <= 2;
+    // glyphs each lookup skips (to be placed inside rule instances of that lookup)
+    let skipped_by: Vec<Vec<i64>> = lookups
+        .iter()
+        .map(|lk| {
+            let f = lk.list();
+            let (flag, mfs) = (f[1].int(), f[2].opt().map(|x| x.int()));
+            (1..NG).filter(|g| skips(flag, mfs, &gdef, *g)).collect()
+        })
+        .collect();
     let li_choice = if rng.chance(1, 30) { nlookups + rng.range(0, 1) } else { rng.range(0, nlookups - 1) };
     let focus_lookup = if run_is_apply { None } else { Some(li_choice) };
     // glyph string: rule instances interleaved with random glyphs
-    let focus: Vec<Vec<i64>> = hits.iter().filter(|(l, _)| Some(*l) == focus_lookup).map(|(_, h)| h.clone()).collect();
-    let all_hits: Vec<Vec<i64>> = hits.iter().map(|(_, h)| h.clone()).collect();
-    let hits: &Vec<Vec<i64>> = if !focus.is_empty() && rng.chance(3, 4) { &focus } else { &all_hits };
+    let focus: Vec<(i64, Vec<i64>)> = hits.iter().filter(|(l, _)| Some(*l) == focus_lookup).cloned().collect();
+    let hits: &Vec<(i64, Vec<i64>)> = if !focus.is_empty() && rng.chance(3, 4) { &focus } else { &hits };
     let mut ids: Vec<i64> = vec![];
     let target = match rng.below(10) {
         0 => 0,
@@ -743,10 +908,16 @@ fn gen(rng: &mut Rng) -> String {
     };
     while (ids.len() as i64) < target {
         if !hits.is_empty() && rng.chance(3, 5) {
-            let h = rng.pick(hits).clone();
+            let (hl, h) = rng.pick(hits).clone();
+            let sk = skipped_by.get(hl as usize).cloned().unwrap_or_default();
             for (k, x) in h.iter().enumerate() {
-                if k > 0 && rng.chance(1, 4) {
-                    ids.push(gen_glyph(rng));
+                if k > 0 {
+                    // a glyph the rule's own lookup skips (transparent for the match), or any glyph
+                    if !sk.is_empty() && rng.chance(1, 4) {
+                        ids.push(sk[rng.below(sk.len() as u64) as usize]);
+                    } else if rng.chance(1, 6) {
+                        ids.push(gen_glyph(rng));
+                    }
                 }
                 ids.push(*x);
             }
@@ -764,7 +935,7 @@ fn gen(rng: &mut Rng) -> String {
                 1 => vec![c, 0x301],
                 _ => vec![c],
             };
-            let origin = if rng.chance(1, 6) { T::none() } else { T::some(T::I(c)) };
+            let origin = if rng.chance(1, 6) { T::none() } else if rng.chance(1, 25) { T::some(T::I(*rng.pick(&[0x200Ci64, 0x200D]))) } else { T::some(T::I(c)) };
             let rare = |rng: &mut Rng| if rng.chance(1, 10) { 1 } else { 0 };
             T::L(vec![
                 T::I(*id),
@@ -780,7 +951,31 @@ fn gen(rng: &mut Rng) -> String {
         .collect();
     let n = glyphs.len() as i64;
 
-    let run = if run_is_apply {
+    let run = if run_kind == 2 {
+        // Features::Mask: the bits of the table's own features (often all of them, so that shared lookups are
+        // enabled through several features at once), the default mask, stray bits
+        let script_tag = *rng.pick(&[LATN, LATN, DFLT, CYRL]);
+        let lang = match rng.below(4) {
+            0 => T::some(T::I(ENG)),
+            1 => T::some(T::I(DFLT)),
+            _ => T::none(),
+        };
+        let mut mask: u64 = 0;
+        for t in &feature_tags {
+            if rng.chance(4, 5) {
+                mask |= gsub::FeatureMask::from_tag(*t as u32).bits();
+            }
+        }
+        if rng.chance(1, 3) {
+            mask |= gsub::FeatureMask::default().bits();
+        }
+        if rng.chance(1, 4) {
+            mask |= 1 << rng.below(46);
+        }
+        mask &= !FRAC_BIT;
+        let num_glyphs = *rng.pick(&[NG, NG, NG, 65535, 3]);
+        T::L(vec![T::I(2), T::I(script_tag), lang, T::I(mask as i64), T::I(num_glyphs)])
+    } else if run_is_apply {
         let script_tag = *rng.pick(&[LATN, LATN, DFLT, ARAB]);
         let lang = match rng.below(4) {
             0 => T::some(T::I(ENG)),
